@@ -100,7 +100,7 @@ CHECKS = {
             'Exploration over schedules: with spawn = false the start/end log must be strictly serial in arrival order; every call gets exactly one reply (none for calls flagged as expecting none); bursts of up to 104 calls (longer than the queue of pending calls).',
             'Trusted: harness scheduler (one executor task per step), gates opened only at quiescence.', '6, 7/C29'),
     'C30': ('schedule-exploring PBT of re-entrant handlers and of calls arriving right after on-demand server creation; hang = quiescence',
-            'Exploration over schedules: handlers that add/remove objects and emit signals (methods, getters, setters; spawn on/off) and calls fed 0..7 steps after at() returned; every call must be answered before the system comes to rest; handlers that remove their own object, with and without the read-only variant; a &mut self handler that awaits before registering; Introspect, GetManagedObjects (object manager above the object) and ObjectServer::interface() lookups from another task running concurrently with them; the first call after on-demand creation behind a burst of signals longer than a queue (65..90).',
+            'Exploration over schedules: handlers that add/remove objects and emit signals (methods, getters, setters; spawn on/off) and calls fed 0..7 steps after at() returned; every call must be answered before the system comes to rest; handlers that remove their own object, with and without the read-only variant; a &mut self handler that awaits before registering; Introspect, GetManagedObjects (object manager above the object) ObjectServer::interface() lookups and the registration of an object manager from another task running concurrently with them; the first call after on-demand creation behind a burst of signals longer than a queue (65..90).',
             'Trusted: quiescence detection of the harness scheduler (all actors pending, no wake-up pending). The loss of calls right after on-demand creation was a known finding and is repaired (known-findings.txt).', '6, 7/C30'),
     'C38': ('fault enumeration: EOF / I/O error injected at every inbound byte position and at every write call of scripted sessions, plus random sessions and schedules',
             'Fault enumeration: every fault point of 6/40 fixed sessions (all byte positions x {EOF, error}, all write calls) and random further sessions; pending calls error out, streams yield exactly the completed messages then end (also a lazily polled stream whose queue is exactly full when the transport fails), later work fails promptly, no panic, no spinning on end-of-file.',
